@@ -11,11 +11,13 @@ Global Instance elem_eq_dec : EqDecision elem.
 Proof. solve_decision. Defined.
 
 (* hashbrown::raw::RawTable, by contract: buckets, growth_left, contents (keyed by Eq-class). *)
-Record hb := HB { hB : N; hgl : N; hel : gmap N elem }.
+Record hb := HB { hB : N; hgl : N; hn : N; hel : gmap N elem }.
+(* hn is hashbrown's `items` counter; the invariant says it is the number of elements *)
 (* griddle OldTable: the old hashbrown table and the cached RawIter over it.
    orem = the elements still in the old table, in the order the cached iterator will yield them;
    oit = the cached iterator's `items` counter. *)
-Record old := Old { oB : N; orem : list elem; oit : N }.
+Record old := Old { oB : N; orem : list elem; oit : N; ocnt : N }.
+(* ocnt is the old table's `items` counter (lo.table.len()) *)
 (* griddle RawTable *)
 Record rt := RT { main : hb; lo : option old }.
 
@@ -53,9 +55,15 @@ Record st := St {
                           holds after the call, in its order (keys) *)
 }.
 
-Definition hlen (t : hb) : N := N.of_nat (size (hel t)).
-Definition olen (o : old) : N := N.of_nat (length (orem o)).
-Definition hb_new : hb := HB 1 0 ∅.
+Definition hlen (t : hb) : N := hn t.
+Definition olen (o : old) : N := ocnt o.
+Definition hb_new : hb := HB 1 0 0 ∅.
+Definition hb_empty (B : N) : hb := HB B (bcap B) 0 ∅.
+(* element added / removed / overwritten in place / table rebuilt with other buckets *)
+Definition hb_ins (t : hb) (e : elem) (g : N) : hb := HB (hB t) g (hn t + 1) (<[ek e := e]> (hel t)).
+Definition hb_del (t : hb) (k : N) (g : N) : hb := HB (hB t) g (hn t - 1) (delete k (hel t)).
+Definition hb_upd (t : hb) (k : N) (e : elem) : hb := HB (hB t) (hgl t) (hn t) (<[k := e]> (hel t)).
+Definition hb_rebuilt (t : hb) (B g : N) : hb := HB B g (hn t) (hel t).
 Definition hb_tombs (t : hb) : N := bcap (hB t) - hlen t - hgl t.
 Definition rt_new : rt := RT hb_new None.
 
@@ -120,34 +128,29 @@ Definition take_tomb : M' bool :=
   s <- get ;;
   if s_tomb s =? 0 then ret false else put (set_tomb (s_tomb s - 1) s) ;;; ret true.
 
-(* the oracle's order for the elements of [m]: must be a permutation of its keys *)
-Definition order_of (m : gmap N elem) (ks : list N) : option (list elem) :=
-  if bool_decide (NoDup ks) && (N.of_nat (length ks) =? N.of_nat (size m))
-  then mapM (fun k => m !! k) ks else None.
+(* The oracle supplies iteration orders.  Whatever it says is checked: an order is accepted only
+   if it lists exactly the elements of the table, each once. *)
+Definition valid_order (m : gmap N elem) (l : list elem) : bool :=
+  bool_decide (list_to_emap l = m) && (N.of_nat (length l) =? N.of_nat (size m)).
+Definition order_of (m : gmap N elem) (ks : list N) : list elem := omap (fun k => m !! k) ks.
 Definition take_order (m : gmap N elem) : M' (list elem) :=
   s <- get ;;
-  match order_of m (s_perm s) with
-  | Some l => ret l
-  | None => fault_ FOracle
-  end.
+  let l := order_of m (s_perm s) in
+  if valid_order m l then ret l else fault_ FOracle.
 (* the order in which a table that becomes the old table will be emptied: the full order if the
-   oracle has it, else any order that ends with what is observed to be left afterwards *)
-Definition order_grow (m : gmap N elem) (ks qs : list N) : option (list elem) :=
-  match order_of m ks with
-  | Some l => Some l
-  | None =>
-      if bool_decide (NoDup qs) then
-        (* keys of qs that are not in m belong to a later growth within the same call *)
-        Some (List.filter (fun e => negb (existsb (N.eqb (ek e)) qs)) (map_to_list m).*2
-              ++ omap (fun k => m !! k) qs)
-      else None
-  end.
+   oracle has it, else any order that ends with what is observed to be left afterwards (keys of
+   qs that are not in m belong to a later growth within the same call) *)
+Definition order_grow (m : gmap N elem) (ks qs : list N) : list elem :=
+  let l := order_of m ks in
+  if valid_order m l then l
+  else
+    let qset : gmap N unit := list_to_map (map (fun k => (k, tt)) qs) in
+    List.filter (fun e => match qset !! ek e with Some _ => false | None => true end) (map_to_list m).*2
+    ++ order_of m qs.
 Definition take_order_grow (m : gmap N elem) : M' (list elem) :=
   s <- get ;;
-  match order_grow m (s_perm s) (s_qperm s) with
-  | Some l => ret l
-  | None => fault_ FOracle
-  end.
+  let l := order_grow m (s_perm s) (s_qperm s) in
+  if valid_order m l then ret l else fault_ FOracle.
 
 Definition lookup_list (k : N) (l : list elem) : option elem := List.find (fun e => ek e =? k) l.
 Definition remove_list (k : N) (l : list elem) : list elem := List.filter (fun e => negb (ek e =? k)) l.
